@@ -6,6 +6,7 @@ mod c09;
 mod c10;
 mod c11;
 mod c12;
+mod c13;
 mod c16;
 mod eng;
 mod lark;
@@ -93,6 +94,13 @@ fn props() -> Vec<Prop> {
         thorough_cases: 900,
         gen: c12::gen_case,
         run: c12::run_case,
+    }, Prop {
+        id: "C13",
+        rule: "case = (grammar with forced stretches: JSON schemas with fixed keys / consts / enums sharing prefixes, Lark grammars with literals incl. non-ASCII, regexes with literal parts and a Lean model; canonical greedy tokenizer over a synthetic vocabulary; seeded walk); at every state forced bytes are checked byte by byte against a non-forcing single-byte engine, ff tokens are decoded / committed / compared, and process_prompt is checked for conservation; distinct non-trivial = distinct (grammar, byte prefix) states with at least one forced byte",
+        quick_cases: 45,
+        thorough_cases: 450,
+        gen: c13::gen_case,
+        run: c13::run_case,
     }, Prop {
         id: "C16",
         rule: "even cases: random op sequences over three SimpleVob registers with sizes around 31/32/33/63/64/...; odd cases: random vocabularies (duplicates, empties, prefixes, marker tokens, long chains, 256-way fan-out) x random DFAs x start prefixes; distinct non-trivial = distinct (op, resulting register) pairs, distinct vocabularies, and distinct (vocab, dfa, start) with a mask that is neither empty nor full",
